@@ -1,3 +1,101 @@
-import Econf.Writer
+import Econf.Lemmas.WriteLemmas
+
+/-!
+  # C07 – a written configuration reads back identically
+
+  `WEntry`/`WVal` (in `Lemmas/WriteLemmas.lean`) are entries with an unambiguous textual form as
+  DESIGN.md 5.4 defines it, given together with their spelling; `WEntry.WF d c` is the 5.4 predicate
+  for delimiter character `d` and comment character `c`.  The theorems: the bytes the writer model
+  produces (`writeSeq`/`writeBytes`, tied to `econf_writeFile` by the correspondence check) are a
+  document of the conventional grammar, hence – by the C02 theorem – parse without error, and the
+  result has the same entries section by section: same section, key, value (absent ≈ empty), quote
+  flag, comment lines before, trailing comment; the same sections in order of first appearance.
+
+  Delimiter characters covered by the proof: the non-blank ones (`TagsWF.dns`; `=` and `:` of the
+  property's quantifier).  The blank delimiter (space) is decided by the correspondence check only.
+-/
+
+set_option linter.unusedSimpArgs false
+
 namespace Econf
+
+/-- **C07 (entry list).**  For every list of 5.4 entries in which group-less entries come first,
+    parsing what the writer produces gives back the same entries, in the same order. -/
+theorem C07_roundtrip (d c : Byte) (hT : TagsWF d c) (ws : List WEntry)
+    (h : ∀ w ∈ ws, w.WF d c) (ho : Ordered none ws) :
+    ∃ st, parseBytes (tagCfg d c) (writeSeq d c none (ws.map WEntry.toEntry)) = .ok st ∧
+          st.entries.map Entry.content = ws.map (fun w => w.toEntry.content) ∧
+          st.groups = (ws.map (·.group)).foldl addGroup [] := by
+  have hwf := docOf_wf d c hT none ws h
+  have hp := C02_parse_render_plain (tagCfg d c) (docOf d c none ws) (tagCfg_wf d c hT) hwf rfl
+  rw [render_docOf d c none ws h] at hp
+  refine ⟨_, hp, ?_⟩
+  have := doc_reread d c hT ws none {} h ⟨rfl, rfl, rfl⟩ ho
+  simpa [expDoc] using this
+
+/-- **C07 (object).**  For every object whose entries have an unambiguous textual form – in any
+    order, group-less entries after sectioned ones included: the writer emits the group-less entries
+    first – the written file reads back with, for every section (and for the group-less part), the
+    same keys in the same order with the same values, quote flags and comments. -/
+theorem C07_object (kf : KeyFile) (ws : List WEntry) (hT : TagsWF kf.delim kf.comment)
+    (hws : writeOrder kf.entries = ws.map WEntry.toEntry) (h : ∀ w ∈ ws, w.WF kf.delim kf.comment) :
+    ∃ st, parseBytes (tagCfg kf.delim kf.comment) (writeBytes kf) = .ok st ∧
+      st.entries.map Entry.content = (writeOrder kf.entries).map Entry.content ∧
+      ∀ g, (st.entries.map Entry.content).filter (fun x => x.1 == g) =
+           (kf.entries.map Entry.content).filter (fun x => x.1 == g) := by
+  have ho : Ordered none ws := by
+    have := ordered_writeOrder kf.entries
+    rw [hws, List.map_map] at this
+    exact this
+  obtain ⟨st, hp, he, _⟩ := C07_roundtrip kf.delim kf.comment hT ws h ho
+  refine ⟨st, ?_, ?_, ?_⟩
+  · unfold writeBytes; rw [hws]; exact hp
+  · rw [he, hws, List.map_map]; rfl
+  · intro g
+    have he' : List.map Entry.content st.entries = (writeOrder kf.entries).map Entry.content := by
+      rw [he, hws, List.map_map]; rfl
+    rw [he', List.filter_map, List.filter_map]
+    have : ((fun x : Str × Str × Str × Bool × Str × Str => x.1 == g) ∘ Entry.content) = fun e => e.group == g := rfl
+    rw [this, writeOrder_section]
+
+/-! ### the hypotheses are satisfiable -/
+
+/-- `[S] a="x y"` with two comment lines before, then a group-less `k` with a two-line value set
+    *after* it, then `[S] b` without value and with a trailing comment -/
+def exW : List WEntry :=
+  [ { group := NONE, key := [0x6b], val := .plain [0x76] [{ indent := [0x20], text := [0x6d, 0x20, 0x6e], trail := [] }], cb := none, ca := none, line := 0 },
+    { group := [0x53], key := [0x61], val := .quoted [0x78, 0x20, 0x79], cb := some [0x63, 0x31, 0x0a, 0x63, 0x32], ca := none, line := 0 },
+    { group := [0x53], key := [0x62], val := .absent, cb := none, ca := some [0x74], line := 0 } ]
+
+def exKf : KeyFile :=
+  { entries := [exW[1].toEntry, exW[0].toEntry, exW[2].toEntry], delim := 0x3d, comment := 0x23 }
+
+theorem exTags : TagsWF 0x3d 0x23 := ⟨by decide, by decide, by decide, by decide, by decide, by decide, by decide, by decide, by decide⟩
+
+theorem exW_wf : ∀ w ∈ exW, w.WF 0x3d 0x23 := by
+  intro w hw
+  simp only [exW, List.mem_cons, List.not_mem_nil, or_false] at hw
+  rcases hw with rfl | rfl | rfl
+  · refine ⟨by decide, by decide, by decide, by decide, ?_, (by intro t ht; cases ht), (by intro t ht; cases ht)⟩
+    refine ⟨by decide, by decide, by decide, by decide, by decide, ?_⟩
+    intro l hl
+    simp only [List.mem_singleton] at hl; subst hl
+    exact ⟨by decide, by decide, by decide, by decide, by decide, by decide⟩
+  · refine ⟨by decide, by decide, by decide, by decide, ?_, ?_, (by intro t ht; cases ht)⟩
+    · show texts _; decide
+    · intro t ht; simp only [Option.some.injEq] at ht; subst ht; decide
+  · refine ⟨by decide, by decide, by decide, by decide, trivial, (by intro t ht; cases ht), ?_⟩
+    intro t ht _; simp only [Option.some.injEq] at ht; subst ht
+    exact ⟨by decide, by decide, by decide, rfl⟩
+
+example : ∃ st, parseBytes (tagCfg 0x3d 0x23) (writeBytes exKf) = .ok st ∧
+    st.entries.map Entry.content = (writeOrder exKf.entries).map Entry.content ∧
+    ∀ g, (st.entries.map Entry.content).filter (fun x => x.1 == g) = (exKf.entries.map Entry.content).filter (fun x => x.1 == g) :=
+  C07_object exKf exW exTags (by decide) exW_wf
+
+/-- what is written: `k=v⏎ m n⏎⏎[S]⏎#c1⏎#c2⏎a="x y"⏎b= #t⏎⏎` -/
+example : writeBytes exKf = [0x6b, 0x3d, 0x76, 0x0a, 0x20, 0x6d, 0x20, 0x6e, 0x0a, 0x0a, 0x5b, 0x53, 0x5d, 0x0a, 0x23, 0x63, 0x31, 0x0a, 0x23, 0x63, 0x32, 0x0a,
+    0x61, 0x3d, 0x22, 0x78, 0x20, 0x79, 0x22, 0x0a, 0x62, 0x3d, 0x20, 0x23, 0x74, 0x0a, 0x0a] := by decide
+
+
 end Econf
